@@ -360,22 +360,11 @@ pub(crate) fn convert_doc(svg_doc: &svgtree::Document, opt: &Options) -> Result<
         opt.fontdb.clone(),
     );
 
+    // All ids share one namespace: a generated id must not be equal to an id of any element,
+    // not only of the elements we generate ids for.
     for node in svg_doc.descendants() {
-        if let Some(tag) = node.tag_name() {
-            if matches!(
-                tag,
-                EId::ClipPath
-                    | EId::Filter
-                    | EId::LinearGradient
-                    | EId::Mask
-                    | EId::Pattern
-                    | EId::RadialGradient
-                    | EId::Image
-            ) {
-                if !node.element_id().is_empty() {
-                    cache.all_ids.insert(string_hash(node.element_id()));
-                }
-            }
+        if node.tag_name().is_some() && !node.element_id().is_empty() {
+            cache.all_ids.insert(string_hash(node.element_id()));
         }
     }
 
